@@ -168,3 +168,71 @@ def install_records(world, rs: RecordSeq):
             return [(st, exc("AttributeError", name, origin))]
 
         world["__opqattr__:sub:" + rs.name + ":" + attr] = getattr_sub
+
+
+# ----------------------------------------------------------------------------------------- symbolic maps / sets
+STRS = z3.StringSort()
+
+
+class SymStrMap:
+    """dict from strings to strings with symbolic content: a domain array and a value array"""
+
+    def __init__(self, dom, val):
+        self.dom, self.val = dom, val
+
+    @staticmethod
+    def fresh(st, prefix):
+        return SymStrMap(fresh(prefix + "_dom", z3.ArraySort(STRS, z3.BoolSort())), fresh(prefix + "_val", z3.ArraySort(STRS, STRS)))
+
+    def contains(self, eng, st, item, origin):
+        return [(st, z3.Select(self.dom, S.to_str_term(item)))]
+
+    def get(self, eng, st, idx, origin):
+        k = S.to_str_term(idx)
+        outs = []
+        s1 = eng.branch(st, z3.Select(self.dom, k))
+        if s1 is not None:
+            outs.append((s1, VStr(z3.Select(self.val, k))))
+        s0 = eng.branch(st, z3.Not(z3.Select(self.dom, k)))
+        if s0 is not None:
+            outs.append((s0, exc("KeyError", "key", origin)))
+        return outs
+
+    def set(self, eng, st, idx, v, origin):
+        from .state import Outcome
+
+        k = S.to_str_term(idx)
+        for oid, c in st.store.items():
+            if isinstance(c, dict) and c.get("__sym__") is self:
+                st.store[oid] = dict(c, __sym__=SymStrMap(z3.Store(self.dom, k, z3.BoolVal(True)), z3.Store(self.val, k, S.to_str_term(v))))
+                return [Outcome("normal", st)]
+        raise Unsupported("symbolic map not found in the store")
+
+    def method(self, eng, st, recv, name, args, kwargs, origin):
+        raise Unsupported(f"method {name} on a symbolic map")
+
+    def length(self, st):
+        raise Unsupported("len() of a symbolic map")
+
+
+class SymIntSet:
+    """set of integers with symbolic content (membership array)"""
+
+    def __init__(self, mem):
+        self.mem = mem
+
+    @staticmethod
+    def fresh(st, prefix):
+        return SymIntSet(fresh(prefix + "_mem", z3.ArraySort(INT, z3.BoolSort())))
+
+    def contains(self, eng, st, item, origin):
+        return [(st, z3.Select(self.mem, S.to_int_term(item)))]
+
+    def method(self, eng, st, recv, name, args, kwargs, origin):
+        if name == "add":
+            st.store[recv.oid] = dict(st.store[recv.oid], __sym__=SymIntSet(z3.Store(self.mem, S.to_int_term(args[0]), z3.BoolVal(True))))
+            return [(st, VC(None))]
+        raise Unsupported(f"method {name} on a symbolic set")
+
+    def length(self, st):
+        raise Unsupported("len() of a symbolic set")
